@@ -160,7 +160,9 @@ class SparselyBin(Factory, Container):
 
     @inheritdoc(Container)
     def zero(self):
-        return SparselyBin(self.binWidth, self.quantity, self.value, self.nanflow.zero(), self.origin)
+        out = SparselyBin(self.binWidth, self.quantity, self.value, self.nanflow.zero(), self.origin)
+        out.contentType = self.contentType
+        return out
 
     @inheritdoc(Container)
     def __add__(self, other):
@@ -182,6 +184,7 @@ class SparselyBin(Factory, Container):
                 self.origin,
             )
             out.entries = self.entries + other.entries
+            out.contentType = self.contentType
             out.bins = {i: v.copy() for i, v in self.bins.items()}
             for i, v in other.bins.items():
                 if i in out.bins:
